@@ -1153,40 +1153,33 @@ func (s *spanScreen) mergeIntoPreviousCell(text string) {
 	}
 	y := s.cursorPos.Y
 	line := &s.lines[y]
-	cell := s.cursorPos.X - 1
 
-	// Find the span at cell position
+	// The character left of the cursor; a wide one starts further left.
+	cell := s.cursorPos.X - 1
+	for cell > 0 && wideTailAt(line, cell, s.textMode) > 0 {
+		cell--
+	}
+	width := 1 + wideTailAt(line, cell+1, s.textMode)
+
 	idx, offset := findSpanAtX(line, cell)
 	if idx >= len(line.spans) {
 		return
 	}
 
-	sp := &line.spans[idx]
-
-	// If we're at an offset within the span, we need to split it first
-	if offset > 0 {
-		left, right, _ := splitSpan(*sp, offset, s.textMode)
-
-		// Update spans: replace current span with left and right
-		newSpans := make([]Span, 0, len(line.spans)+1)
-		newSpans = append(newSpans, line.spans[:idx]...)
-		newSpans = append(newSpans, left, right)
-		newSpans = append(newSpans, line.spans[idx+1:]...)
-		line.spans = newSpans
-
-		// Now the cell we want to merge into is at idx+1
-		idx++
+	// Cut that character out of its span, append the text to it and put it
+	// back in place: the cells of the row keep their widths.
+	_, rest, _ := splitSpan(line.spans[idx], offset, s.textMode)
+	ch, _, _ := splitSpan(rest, width, s.textMode)
+	if ch.Width != width {
+		return
 	}
-
-	// Convert repeat to text if needed and merge
-	sp = &line.spans[idx]
-	if sp.Text == "" {
-		sp.Text = strings.Repeat(string(sp.Rune), sp.Width)
+	if ch.Text == "" {
+		ch.Text = strings.Repeat(string(ch.Rune), ch.Width)
 	}
-	sp.Text += text
-	// Width doesn't change for merge
+	ch.Text += text
+	replaceRange(line, cell, width, ch, s.textMode)
 
-	s.frontend.RegionChanged(Region{Y: y, Y2: y + 1, X: cell, X2: cell + 1}, CRText)
+	s.frontend.RegionChanged(Region{Y: y, Y2: y + 1, X: cell, X2: cell + width}, CRText)
 }
 
 func max(a, b int) int {
